@@ -155,6 +155,10 @@ impl BytesSerializable for ServerCommand {
     }
 
     fn from_bytes(bytes: Bytes) -> Result<Self, IggyError> {
+        if bytes.len() < 4 {
+            return Err(IggyError::InvalidCommand);
+        }
+
         let code = u32::from_le_bytes(
             bytes[..4]
                 .try_into()
